@@ -221,6 +221,11 @@ fn expand_args_in_tokens(tokens: &mut types::Tokens, args: &[String]) {
     }
 }
 
+// with `set -e`, a block whose last executed command failed ends the script
+fn failed_on_exit_on_error(sh: &shell::Shell, cr_list: &[CommandResult]) -> bool {
+    sh.exit_on_error && cr_list.last().map_or(false, |x| x.status != 0)
+}
+
 fn run_exp_test_br(sh: &mut shell::Shell,
                    pair_br: Pair<parsers::locust::Rule>,
                    args: &Vec<String>,
@@ -365,8 +370,9 @@ fn run_exp_for(sh: &mut shell::Shell,
                 sh.set_env(&var_name, value);
                 let (mut _cr_list, _cont, _brk) = run_exp(
                     sh, pair.clone(), args, true, capture);
+                let failed = failed_on_exit_on_error(sh, &_cr_list);
                 cr_list.append(&mut _cr_list);
-                if _brk {
+                if _brk || failed {
                     break;
                 }
             }
@@ -382,8 +388,9 @@ fn run_exp_while(sh: &mut shell::Shell,
     let mut cr_list = Vec::new();
     loop {
         let (mut _cr_list, passed, _cont, _brk) = run_exp_test_br(sh, pair_while.clone(), args, true, capture);
+        let failed = failed_on_exit_on_error(sh, &_cr_list);
         cr_list.append(&mut _cr_list);
-        if !passed || _brk {
+        if !passed || _brk || failed {
             break;
         }
     }
@@ -433,7 +440,11 @@ fn run_exp(sh: &mut shell::Shell,
             }
         } else if rule == parsers::locust::Rule::EXP_IF {
             let (mut _cr_list, _cont, _brk) = run_exp_if(sh, pair, args, in_loop, capture);
+            let failed = failed_on_exit_on_error(sh, &_cr_list);
             cr_list.append(&mut _cr_list);
+            if failed {
+                return (cr_list, false, false);
+            }
             if _cont {
                 return (cr_list, true, false);
             }
@@ -442,10 +453,18 @@ fn run_exp(sh: &mut shell::Shell,
             }
         } else if rule == parsers::locust::Rule::EXP_FOR {
             let mut _cr_list = run_exp_for(sh, pair, args, capture);
+            let failed = failed_on_exit_on_error(sh, &_cr_list);
             cr_list.append(&mut _cr_list);
+            if failed {
+                return (cr_list, false, false);
+            }
         } else if rule == parsers::locust::Rule::EXP_WHILE {
             let mut _cr_list = run_exp_while(sh, pair, args, capture);
+            let failed = failed_on_exit_on_error(sh, &_cr_list);
             cr_list.append(&mut _cr_list);
+            if failed {
+                return (cr_list, false, false);
+            }
         }
     }
     (cr_list, false, false)
